@@ -4,6 +4,10 @@ import json, os
 HERE = os.path.dirname(os.path.dirname(os.path.abspath(__file__)))
 TECH = "bounded symbolic execution of the real /repo C sources with CBMC 6.11 (goto-cc build, SAT/SMT back ends); counterexamples replayed natively against the same sources"
 CLAIMED = {
+ "C02": ("WrErrorString counters as an inductive step (any counts < 2^31, any class/-Werror/-maxerrors), exit(3)+unlink on fatal, classification of every 16-bit message number in WrXErrorPos, EXPECT/ENDEXPECT bookkeeping",
+         "DESIGN.md C02", "message text, position strings and output channels cut to empty bodies; exit() modelled; AssembleFile decision skeleton not yet covered"),
+ "C04": ("asmcode.c writer: one inductive step each of WriteBytes/NewRecord/OpenFile/CloseFile/RetractWords from an arbitrary state satisfying the representation invariant, byte-exact through a witness cell at an arbitrary file offset",
+         "DESIGN.md C04", "stdio replaced by the witness-cell file model (stubs/vfile.h, no I/O errors); relocation records outside; lines 1..8 bytes quick, 504..520 thorough; little-endian host"),
  "C08": ("operator bodies of operator.c (all 64-bit operand pairs; floats in stated sub-domains) and the operator table vs the manual's operator table",
          "DESIGN.md C08", "CBMC bit-precise integer/IEEE semantics; diag.c stub for the error interface; relocations cut; operator split inside EvalStrExpression, libm results, literals and functions not yet covered are outside the claim"),
  "C09": ("IEEE half/single/double/extended encoders of ieeefloat.c for every double bit pattern and both byte orders vs bit-level statements of IEEE-754 RNE / the x87 layout",
